@@ -44,7 +44,9 @@ def allowed_effects_rule(prog, res):
         o = gp.call_obj(n)
         if o is not None and n['callee'].get('inrepo') and not n['callee'].get('const') and n['callee']['name'] != 'operator=' and R.render(o).startswith('this._parameters['):
             partial.append('%s.%s()' % (R.render(o), n['callee']['name']))
-    whole = [n for n in gp.nodes if n['k'] == 'CXXOperatorCallExpr' and n.get('op') == '=' and R.render(n['args'][0]).startswith('this._parameters[') and R.render(n['args'][1]) == 'arg0']
+    from paths import root_of as _root_of
+    whole = [n for n in gp.nodes if n['k'] == 'CXXOperatorCallExpr' and n.get('op') == '=' and R.render(n['args'][1]) == 'arg0' and
+             (R.render(n['args'][0]).startswith('this._parameters[') or _root_of(gp, n['args'][0]) == ('this', ['_parameters', '[]']))]
     if extra or partial or len(whole) != 1:
         res.viol('effects', 'Group::parameter(const Parameter&)', gp.loc(),
                  'may only append the parameter or assign the matched element as a whole; found extra effects %s, partial element writes %s, %d whole-element assignments of the argument' %
@@ -242,6 +244,38 @@ def edit_order_rule(prog, res):
     if ok:
         # creation only in the handler of the failed look-up; store after; update after store on every path
         cr_in_catch = any(f.nodes[a]['k'] == 'CXXCatchStmt' and f.nodes[a].get('catch_t') == 'std::invalid_argument' for a in f.ancestors(g.node_of(create[0])))
+        if not cr_in_catch:
+            # creation decided by a test: walk on finite models - an absent group must be created before the store
+            import a7
+            import itertools
+            verdict = 'ok'
+            for n_ in range(3):
+                for combo in itertools.permutations(('A', 'B', 'C'), n_):
+                    model = {'this._parameters._groups.size': n_, 'arg0': 'A', 'arg1._name': 'P', 'strempty:arg1._name': False, 'arg1._data_type': 2,
+                             '#alias': {'group': '_groups'}}
+                    for k_, nm in enumerate(combo):
+                        model['this._parameters._groups[%d]._name' % k_] = nm
+                    try:
+                        events, end, und = a7.walk(f, model, follow_loops=True, max_steps=2000)
+                    except a7.OutOfRange:
+                        end, events = 'undecided', []
+                    if end.startswith('undecided') or end == 'loop':
+                        verdict = 'undecided'
+                        break
+                    created = g.node_of(create[0]) in events
+                    if 'A' not in combo and not created and g.node_of(store[0]) in events:
+                        verdict = 'with groups %s the group A is not created before the parameter is stored' % list(combo)
+                        break
+                if verdict != 'ok':
+                    break
+            if verdict == 'undecided':
+                res.undecided('edit-order', 'c3d::parameter', f.loc(), 'the group is created under a test the rule cannot evaluate (neither the handler of the failed look-up nor a condition on the group names)',
+                              function=f.sig, expr='order')
+                return
+            if verdict != 'ok':
+                res.viol('edit-order', 'c3d::parameter', f.loc(), verdict, function=f.sig, expr='order')
+                return
+            cr_in_catch = True
         ok = cr_in_catch and store[0] in g.reach([create[0]]) and g.NEXIT not in g.reach([store[0]], avoid={upd[0]}) and g.dominates(store[0], upd[0])
         why = 'the group must be created only when the name look-up failed, then the parameter stored, then the header updated'
         # the stored group is the one looked up by the caller's group name
@@ -290,10 +324,46 @@ def validate_first_rule(prog, res):
             if re.match(r'^!\(this\.isDimensionConsistent\(arg0\.size,(.*)\)\)$', c) and ths and all(t.get('throw_t') == 'std::range_error' for t in ths):
                 guard = i
                 gdims = re.match(r'^!\(this\.isDimensionConsistent\(arg0\.size,(.*)\)\)$', c).group(1)
+        gv = None
         if guard is None:
-            res.viol('validate-first', inst, f.loc(), 'no `if (!isDimensionConsistent(data.size(), dims)) throw std::range_error` guard', function=f.sig, expr='guard')
+            # the test may live in a helper that hands back the validated dimensions
+            from codec import substitute
+            for c in f.calls():
+                cf = prog.funcs.get(c['callee'].get('usr')) if c['callee'].get('inrepo') else None
+                if cf is None or cf.implicit or cf.body is None or cf.qname.endswith('::isDimensionConsistent') or cf.qname.startswith(PR + '::set'):
+                    continue
+                Rc = Renderer(cf)
+                sub = {'arg%d' % k: R.render(a) for k, a in enumerate(f.call_args(c))}
+                if f.call_obj(c) is not None:
+                    sub['this'] = R.render(f.call_obj(c))
+                for i in cf.all_nodes({'IfStmt'}):
+                    cc = Rc.render(i['cond'])
+                    ths = [cf.nodes[x] for x in cf.descendants(i['then']) if cf.nodes[x]['k'] == 'CXXThrowExpr']
+                    m = re.match(r'^!\((.*)\.isDimensionConsistent\((.*),(.*)\)\)$', cc)
+                    if not (m and ths and all(t.get('throw_t') == 'std::range_error' for t in ths)):
+                        continue
+                    obj_, a_, b_ = substitute(m.group(1), sub), substitute(m.group(2), sub), m.group(3)
+                    rets = [Rc.render(r['ch'][0]) for r in cf.all_nodes({'ReturnStmt'}) if r['ch']]
+                    if re.sub(r'^\*\((.*)\)$', r'\1', obj_) == 'this' and a_ == 'arg0.size' and rets and all(r == b_ for r in rets):
+                        guard = c
+                        gdims = R.render(c['id'])
+                        gv = g.vertex_of.get(c['id'])
+        if guard is None:
+            import maythrow as MT
+            M = MT.get(prog)
+            can = set()
+            for c in f.calls():
+                can |= set(M.raised_at(f, c))
+            can |= {t.get('throw_t') for t in f.all_nodes({'CXXThrowExpr'})}
+            if 'std::range_error' not in can:
+                res.viol('validate-first', inst, f.loc(), 'nothing in the setter can refuse with std::range_error: no `if (!isDimensionConsistent(data.size(), dims)) throw std::range_error` guard',
+                         function=f.sig, expr='guard')
+            else:
+                res.undecided('validate-first', inst, f.loc(), 'the consistency test is not in a form the rule reads (`if (!isDimensionConsistent(data.size(), dims)) throw std::range_error` here or in a helper returning the validated dimensions)',
+                              function=f.sig, expr='guard')
             continue
-        gv = g.vertex_of.get(f.strip(guard['cond'], 'all'))
+        if gv is None:
+            gv = g.vertex_of.get(f.strip(guard['cond'], 'all'))
         bad = None
         stores = {}
         for e in E.direct[f.usr]:
